@@ -368,6 +368,73 @@ pub fn check_cli(ctx_cli: &std::path::Path, tag: &str, pre: &[String], pos: &[St
     st.sample(|| json!({"argv": out.argv, "status": out.status, "stderr_tail": tail}));
 }
 
+/// Fault enumeration at the process boundary: every system call the binary makes on its two
+/// output files (openat, write, close of each) is made to fail in turn (strace syscall
+/// injection).  Exit 0 still needs both complete files; a failure needs a message; never a panic.
+pub fn check_cli_faults(exe: &std::path::Path, tag: &str, st: &mut Stats) {
+    if std::process::Command::new("strace").arg("-V").output().is_err() {
+        st.count("fault_enumeration_skipped(strace not available)");
+        return;
+    }
+    let dir = cli::scratch_dir();
+    let argvs: Vec<Vec<&str>> = vec![
+        vec!["--replications", "2", "--steps", "60", "p2", "polygon", "--sides", "4"],
+        vec!["--replications", "1", "--steps", "40", "-p", "LJ", "p2mg", "trimer"],
+        vec!["--replications", "2", "--steps", "60", "p1g1", "circle"],
+    ];
+    for (ai, argv) in argvs.iter().enumerate() {
+        for sys in ["openat", "write", "close"].iter() {
+            for when in 1..=2u32 {
+                for errno in ["ENOSPC", "EIO", "EACCES", "EINTR"].iter() {
+                    st.eval();
+                    let base = dir.join(format!("{}-fi-{}-{}-{}-{}-{}", tag, std::process::id(), ai, sys, when, errno));
+                    let json_p = base.with_extension("json");
+                    let svg_p = base.with_extension("svg");
+                    let _ = std::fs::remove_file(&json_p);
+                    let _ = std::fs::remove_file(&svg_p);
+                    let out = std::process::Command::new("strace")
+                        .args(&["-f", "-o", "/dev/null", "-e", "trace=openat,write,close"])
+                        .arg("-P").arg(&json_p).arg("-P").arg(&svg_p)
+                        .arg("-e").arg(format!("inject={}:error={}:when={}", sys, errno, when))
+                        .arg(exe).arg("--outfile").arg(&base).args(argv.iter())
+                        .env("RAYON_NUM_THREADS", "2")
+                        .output();
+                    let out = match out {
+                        Ok(o) => o,
+                        Err(_) => {
+                            st.count("fault_enumeration_run_failed_to_start");
+                            continue;
+                        }
+                    };
+                    let stderr = String::from_utf8_lossy(&out.stderr).to_string();
+                    let c = Case::Cli { pre: vec![format!("<fault: {} #{} fails with {}>", sys, when, errno)], pos: argv.iter().map(|s| s.to_string()).collect(), unwritable: false };
+                    st.nontrivial(hash_str(&format!("{}{}{}{}", ai, sys, when, errno)));
+                    st.count(&format!("fault_points[{}#{}]", sys, when));
+                    use std::os::unix::process::ExitStatusExt;
+                    let tail: String = stderr.lines().rev().take(3).collect::<Vec<_>>().join(" | ");
+                    if out.status.code() == Some(101) || stderr.contains("panicked at") || out.status.signal().is_some() {
+                        st.violation(viol("panic-under-injected-io-fault", &c, json!({"status": out.status.code(), "stderr_tail": tail})));
+                    } else if out.status.code() == Some(0) {
+                        let json_ok = std::fs::read_to_string(&json_p).ok().map(|t| xjson::parse(&t).is_ok()).unwrap_or(false);
+                        let svg_ok = std::fs::read_to_string(&svg_p).ok().map(|t| t.contains("<svg") && t.trim_end().ends_with("</svg>")).unwrap_or(false);
+                        st.count("faults_survived_with_exit_0");
+                        if !json_ok || !svg_ok {
+                            st.violation(viol("exit-0-with-incomplete-output-under-injected-io-fault", &c, json!({"json_parseable": json_ok, "svg_complete": svg_ok, "stderr_tail": tail})));
+                        }
+                    } else {
+                        st.count("faults_reported_with_message_and_nonzero_exit");
+                        if stderr.trim().is_empty() {
+                            st.violation(viol("non-zero-exit-without-a-message", &c, json!({"status": out.status.code()})));
+                        }
+                    }
+                    let _ = std::fs::remove_file(&json_p);
+                    let _ = std::fs::remove_file(&svg_p);
+                }
+            }
+        }
+    }
+}
+
 fn sv(v: &[&str]) -> Vec<String> {
     v.iter().map(|s| s.to_string()).collect()
 }
@@ -457,7 +524,7 @@ pub fn cli_grid<R: Rng>(rng: &mut R, n: usize) -> Vec<(Vec<String>, Vec<String>,
 }
 
 pub fn run(ctx: &Ctx) {
-    ctx.set_rule("library: optimise_state on deterministic bowl landscapes (k = 6, optionally with an undefined region) for steps, inner_steps in {0,1,2,3,7,999,1000,1001,2500,(1e5)} incl. non-multiples and inner_steps > steps, temperatures 0..10, all schedule options, convergence in {unset,0,1e-9,1e-5,2e-4,1e-3,3e-3,1e9}; each configuration is run without and with its threshold: no panic, number of proposals (score calls - 2) within [steps - one loop, steps], the convergent run's call log a bit-exact prefix of the full run's, and the exit at exactly the loop the >5-consecutive-slow-loops rule dictates (decided from the scores at loop boundaries of the full run). CLI: the real binary over groups x shapes x potentials x replications {0,1,3} x the same step settings, unwritable output path, polygon --sides 0..3, polygon -p LJ, unknown group, negative steps: exit 0 needs both parseable files, non-zero needs a message, never a panic (status 101, 'panicked at', signal). Non-trivial = edge configurations (0, non-multiples, inner > steps), runs with a threshold, every CLI run; distinct by configuration");
+    ctx.set_rule("library: optimise_state on deterministic bowl landscapes (k = 6, optionally with an undefined region) for steps, inner_steps in {0,1,2,3,7,999,1000,1001,2500,(1e5)} incl. non-multiples and inner_steps > steps, temperatures 0..10, all schedule options, convergence in {unset,0,1e-9,1e-5,2e-4,1e-3,3e-3,1e9}; each configuration is run without and with its threshold: no panic, number of proposals (score calls - 2) within [steps - one loop, steps], the convergent run's call log a bit-exact prefix of the full run's, and the exit at exactly the loop the >5-consecutive-slow-loops rule dictates (decided from the scores at loop boundaries of the full run). CLI: the real binary over groups x shapes x potentials x replications {0,1,3} x the same step settings, unwritable output path, polygon --sides 0..3, polygon -p LJ, unknown group, negative steps: exit 0 needs both parseable files, non-zero needs a message, never a panic (status 101, 'panicked at', signal). Fault enumeration: each of the six system calls on the two output files (openat/write/close of .json and .svg) is made to fail in turn with ENOSPC/EIO/EACCES/EINTR (strace injection), same classification. Non-trivial = edge configurations (0, non-multiples, inner > steps), runs with a threshold, every CLI run; distinct by configuration");
     let n_lib = ctx.tier.pick(50u64, 1_500u64);
     let big = ctx.tier == Tier::Thorough;
     enable_discarding_logger();
@@ -486,6 +553,9 @@ pub fn run(ctx: &Ctx) {
         for s in all {
             ctx.merge(s);
         }
+        let mut st = Stats::new();
+        check_cli_faults(&exe, &format!("c20-{}", seed), &mut st);
+        ctx.merge(st);
     } else {
         ctx.inconclusive("packing binary not available (PV_CLI unset)");
     }
